@@ -168,6 +168,18 @@ func VerifyInclusion(proof *InclusionProof, digest, root [sha256.Size]byte) bool
 		return false
 	}
 
+	if proof.Leaf < 0 || proof.Leaf >= proof.Width {
+		return false
+	}
+
+	// the number of terms must match the length of the audit path
+	// for the given leaf and width (as in RFC 9162, section 2.1.3)
+	inner := bits.Len64(uint64(proof.Leaf) ^ uint64(proof.Width-1))
+	border := bits.OnesCount64(uint64(proof.Leaf) >> uint(inner))
+	if len(proof.Terms) != inner+border {
+		return false
+	}
+
 	leaf := [1 + sha256.Size]byte{LeafPrefix}
 	copy(leaf[1:], digest[:])
 
